@@ -1,5 +1,6 @@
 // q.cc - world Q: file system, boot, driver ops, stub spawners
 #include "q.h"
+#include "common.h"
 #include "q_time.h"
 #include <errno.h>
 #include <fcntl.h>
@@ -87,6 +88,7 @@ void WorldQ::setup() {
   for (auto &o : plan->knobs["oracles_off"].a) oracles_off.insert(o.str());
   for (auto &o : plan->knobs["oracles"].a) oracles_on.insert(o.str());
 
+  { QmailTree tt; tt.home = home; tt.restyle_all_controls(k, (int)plan->knobs.geti("ctl_style", 0)); }
   for (auto &p : plan->knobs["control_raw"].o) k->put_file(home + "/control/" + p.first, p.second.str());
   logsink = k->new_sink("qmail-send-log");
   if (enabled("c15") || enabled("c16")) { if (!oracles_on.empty() || plan->knobs.getb("timing", false)) tg = make_time_ghost(this); }
@@ -252,7 +254,7 @@ void WorldQ::driver() {
       // replace by rename semantics: new inode, readers in progress keep the old one
       std::string path = home + "/control/" + op.gets("file");
       k->remove_path(path);
-      if (!op.getb("remove", false)) k->put_file(path, op.gets("content"));
+      if (!op.getb("remove", false)) { k->put_file(path, op.gets("content")); QmailTree::restyle_control(k, path, (int)plan->knobs.geti("ctl_style", 0)); }
     }
     else if (o == "second_send") {
       std::vector<Kernel::FdSpec> fds = {{0, k->of_sink(logsink)}, {1, k->of_null()}, {2, k->of_preloaded(std::string(1, (char)5))}, {3, k->of_null()}, {4, k->of_preloaded(std::string(1, (char)5))}, {5, k->of_null()}, {6, k->of_null()}};
